@@ -283,6 +283,8 @@ type workQueue struct {
 	started int
 	max     int
 	dropped int
+	deadline time.Time
+	timedOut bool
 }
 
 func newWorkQueue(max int) *workQueue {
@@ -307,7 +309,10 @@ func (q *workQueue) pop() ([]int64, bool) {
 	if len(q.items) == 0 {
 		return nil, false
 	}
-	if q.started >= q.max {
+	if !q.deadline.IsZero() && time.Now().After(q.deadline) {
+		q.timedOut = true
+	}
+	if q.started >= q.max || q.timedOut {
 		q.dropped += len(q.items)
 		q.items = nil
 		q.cond.Broadcast()
